@@ -107,7 +107,8 @@ def kind_of_value(v):
 
 
 class World:
-    def __init__(self, same_names=False):
+    def __init__(self, same_names=False, recycle=False):
+        self.recycle, self.recycled = recycle, 0
         import sym_metanet as sm
         from sym_metanet import engines
         from sym_metanet.engines.casadi import Engine as CE
@@ -252,6 +253,25 @@ class World:
                     self.net.add_origin(self.el["R2"], self.nodes[1])
                     self.r = "R2"
                 elif c[1] == "D1":
+                    if self.recycle and "D0" in self.el:
+                        # the caller drops the free destination first (a stand-in takes its place), forgets it, and only
+                        # then creates the congested one: CPython hands the dead object's address to a new one
+                        import gc
+                        stand_in = self.sm.Destination(name=self.el["D0"].name)
+                        self.net.add_destination(stand_in, self.nodes[2])
+                        dead, nm_ = id(self.el["D0"]), self.el["D1"].name
+                        del self.el["D0"], self.el["D1"]
+                        gc.collect()
+                        keep = []
+                        for _ in range(300):
+                            cand = self.sm.CongestedDestination(name=nm_)
+                            if id(cand) == dead:
+                                self.recycled += 1
+                                break
+                            keep.append(cand)
+                        self.el["D1"] = cand
+                        del keep
+                        self.param_snapshot = {k_: v_ for k_, v_ in self.param_snapshot.items() if k_[0] != "D0"}
                     self.net.add_destination(self.el["D1"], self.nodes[2])
                     self.dst = "D1"
                 else:
@@ -348,9 +368,9 @@ def dyn_record(w: World, t: dict, sym: str):
                     "twin": {"has": False}, "spy": []}}
 
 
-def replay_transition(t: dict, same_names: bool = False) -> dict:
+def replay_transition(t: dict, same_names: bool = False, recycle: bool = False) -> dict:
     out = {"c12": [], "c13": [], "c19": [], "crash": [], "drift": [], "dyn": None}
-    w = World(same_names)
+    w = World(same_names, recycle)
     last = None
     hist = t["h"]
     for idx, c in enumerate(hist):
